@@ -59,8 +59,8 @@ structure S where
   cbF3 : Nat         -- netFD.Close: closed++
   cbF3b : Nat        --              load detaching
   cbF3c : Nat        --              close(2)
-  cbF4 : Nat         -- closeBuffer: Len(), having loaded a non-nil OnConnect or OnRequest
-  cbF4n : Nat        -- closeBuffer: Len(), having loaded nil for both callbacks
+  cbF4 : Nat         -- closeBuffer: Len(), having loaded a non-nil OnRequest (the input buffer is recycled whatever it holds)
+  cbF4n : Nat        -- closeBuffer: Len(), having loaded no OnRequest handler (fix D19: OnConnect alone does not recycle unread input)
   cbF4b : Nat        --              inputBuffer.Close() (length := 0)
   cbFx : Nat         -- exit of the finalizer callback
   cbDone : Nat
@@ -246,7 +246,7 @@ def tDisc (s : S) : S := if !s.hasOD then toStart s else { s with tD1 := s.tD1 +
 def b2n (b : Bool) : Nat := if b then 1 else 0
 
 /-- CB runner entering closeBuffer: the two callback loads happen here, before the `Len()` point -/
-def toF4 (s : S) : S := if s.hasOC ∨ s.orSet then { s with cbF4 := s.cbF4 + 1 } else { s with cbF4n := s.cbF4n + 1 }
+def toF4 (s : S) : S := if s.orSet then { s with cbF4 := s.cbF4 + 1 } else { s with cbF4n := s.cbF4n + 1 }
 
 /-- closers, Detach -/
 def stepCloser (s : S) : CAct → Option S
